@@ -311,7 +311,7 @@ func run(c *ev.Ctx) {
 						return ""
 					}
 				}}
-				st := sched.Explore(sc, sched.Bounds{Preemptions: 99, EnvDevs: 0, StepLimit: 5000, MaxExec: 5000}, func(ch []int, e *shim.Execution, verdict string) {
+				st := sched.Explore(sc, sched.Bounds{Preemptions: 99, EnvDevs: 0, StepLimit: 5000, MaxExec: 5000, Stop: c.Expired}, func(ch []int, e *shim.Execution, verdict string) {
 					c.Inc("traces_validated_against_impl")
 					c.Eval(true)
 					c.Add("transitions", int64(len(e.Decisions)))
